@@ -150,11 +150,22 @@ func (r *Run) matchKnown(cell string) *Finding {
 	return nil
 }
 
+// traceCell prints the verdict of cells whose id contains VERIF_TRACE_CELL (development aid).
+func traceCell(cell, verdict string) {
+	if t := os.Getenv("VERIF_TRACE_CELL"); t != "" && strings.Contains(cell, t) {
+		if len(verdict) > 300 {
+			verdict = verdict[:300]
+		}
+		fmt.Printf("TRACE %s %s\n", cell, verdict)
+	}
+}
+
 // IsKnown tells whether a failing cell id is covered by an open finding (without recording it).
 func (r *Run) IsKnown(cell string) bool { return r.matchKnown(cell) != nil }
 
 // Ok records one conclusive, agreeing evaluation of a cell.
 func (r *Run) Ok(cell string) {
+	traceCell(cell, "ok")
 	r.mu.Lock()
 	r.Evals++
 	r.distinct[cell] = struct{}{}
@@ -163,6 +174,7 @@ func (r *Run) Ok(cell string) {
 
 // OkN records n evaluations belonging to one distinct cell.
 func (r *Run) OkN(cell string, n int) {
+	traceCell(cell, "ok")
 	r.mu.Lock()
 	r.Evals += n
 	r.distinct[cell] = struct{}{}
@@ -186,6 +198,7 @@ func (r *Run) Sample(s any) {
 
 // Fail records a failing cell: known finding or violation. witness is written to a replay file.
 func (r *Run) Fail(cell string, witness map[string]any) {
+	traceCell(cell, fmt.Sprint("FAIL ", witness["diff"]))
 	r.mu.Lock()
 	defer r.mu.Unlock()
 	r.Evals++
